@@ -256,6 +256,31 @@ MUTANTS = [
  ('C10-8', 'C10', K + 'Composition/CCompositionMCNP.py',
   "            if \".\" in isotope:\n                isotope = isotope.split(\".\")[0]",
   "            if \".\" in isotope:\n                isotope = isotope.split(\".\")[0][:-1] + '0'"),
+ # ---- C11
+ ('C11-1', 'C11', 'MIP/geom/grammars/geom.ebnf',
+  "union =\n    | l:union o:':' r:isect\n    | o:isect;\n\nisect =\n    | l:isect o:'*' r:operand\n    | o:operand;",
+  "union =\n    | l:union o:'*' r:isect\n    | o:isect;\n\nisect =\n    | l:isect o:':' r:operand\n    | o:operand;"),
+ ('C11-2', 'C11', 'MIP/geom/semantics.py',
+  "        if self[0] == '*':\n            return GeomExpression((':', self[1].inverse(), self[2].inverse()))",
+  "        if self[0] == '*':\n            return GeomExpression(('*', self[1].inverse(), self[2].inverse()))"),
+ ('C11-3', 'C11', 'MIP/geom/parsegeom.py',
+  "    g = re_parenc_after.sub(r') \\1', g)\n",
+  ""),
+ ('C11-4', 'C11', K + 'Volume/CellConversion.py',
+  "            if cell_id < 0:\n                return new_geom\n            return new_geom.inverse()",
+  "            return new_geom"),
+ ('C11-5', 'C11', 'MIP/geom/parsegeom.py',
+  "    g = re_compl_surf.sub(r' _(', g)\n\n    # remove spaces around ':' operator (this must come after the rewriting\n    # of the complement operators, which inserts a space in front of them)\n    g = re_union.sub(':', g)\n",
+  "    g = re_compl_surf.sub(r' _(', g)\n"),
+ ('C11-6', 'C11', 'MIP/geom/semantics.py',
+  "            return GeomExpression(('^', Cell(str(-int(self[1])))))",
+  "            return GeomExpression(('^', Cell(str(int(self[1])))))"),
+ ('C11-7', 'C11', 'MIP/mip/cellcard.py',
+  "re_options = re.compile(r'([\\)\\s])([\\*a-zA-Z].*)$')",
+  "re_options = re.compile(r'([\\s])([\\*a-zA-Z].*)$')"),
+ ('C11-9', 'C11', 'MIP/geom/semantics.py',
+  "    def inverse(self):\n        return Surface(-self.surface, self.sub)",
+  "    def inverse(self):\n        return Surface(-self.surface, None)"),
 ]
 
 
